@@ -190,20 +190,45 @@ func rulePoolForeign(r *Run) {
 				}
 			}
 		}
+		// … or the slice an accessor hands out next to the box (bp, b := getBytes())
+		accVals, _, _ := p.accessorSlices(g)
+		for _, av := range accVals {
+			if av.Referrers() == nil {
+				continue
+			}
+			for _, ref := range *av.Referrers() {
+				if st, ok := ref.(*ssa.Store); ok && st.Val == av {
+					if al, ok := p.cellRoot(st.Addr).(*ssa.Alloc); ok {
+						cell = al
+					}
+				}
+			}
+		}
 		if cell == nil {
 			r.undecided(key, g.call.Pos(), "could not identify the variable that holds the pooled slice")
 			continue
 		}
-		// is the cell what goes back into the box?
+		// is the cell what goes back into the box? (the store may sit in a put helper: putBytes(bp, b, max))
 		back := false
-		for _, fn := range allFuncsDeep(g.fn) {
+		for _, fn := range p.region(g.fn) {
 			eachInstr(fn, func(in ssa.Instruction) {
 				st, ok := in.(*ssa.Store)
 				if !ok || !p.isPoolBox(st.Addr) {
 					return
 				}
-				if u, ok := st.Val.(*ssa.UnOp); ok && p.cellRoot(u.X) == ssa.Value(cell) {
+				isCellLoad := func(v ssa.Value) bool {
+					u, ok := v.(*ssa.UnOp)
+					return ok && u.Op == token.MUL && p.cellRoot(u.X) == ssa.Value(cell)
+				}
+				if isCellLoad(st.Val) {
 					back = true
+				}
+				if par, ok := st.Val.(*ssa.Parameter); ok && p.isTransparent(par.Parent()) {
+					for _, b := range p.bindings(par.Parent()) {
+						if isCellLoad(b.subst(par)) {
+							back = true
+						}
+					}
 				}
 			})
 		}
@@ -218,6 +243,7 @@ func rulePoolForeign(r *Run) {
 				seeds = append(seeds, u)
 			}
 		}
+		seeds = append(seeds, accVals...)
 		tainted := ta.taintedValues(g.fn, seeds)
 		bad := false
 		for _, st := range p.cellStores(cell) {
